@@ -250,7 +250,7 @@ impl<'tcx> Cx<'tcx> {
         if let ty::Ref(_, inner, _) = ty.kind() {
             if inner.is_str() || matches!(inner.kind(), ty::Slice(_)) {
                 if let Ok(v) = c.eval(self.tcx, self.env, rustc_span::DUMMY_SP) {
-                    if let Some(bytes) = v.try_get_slice_bytes_for_diagnostics(self.tcx) {
+                    if let Some(bytes) = if matches!(v, mir::ConstValue::Slice { .. }) { v.try_get_slice_bytes_for_diagnostics(self.tcx) } else { None } {
                         if inner.is_str() {
                             o.push(("str", s(String::from_utf8_lossy(bytes).to_string())));
                         } else {
@@ -722,7 +722,8 @@ fn dump_crate(tcx: TyCtxt<'_>, out_dir: &str) {
                             }
                             ConstValue::ZeroSized => o.push(("zst", J::Bool(true))),
                             other => {
-                                if let Some(bytes) = other.try_get_slice_bytes_for_diagnostics(tcx) {
+                                // (try_get_slice_bytes_for_diagnostics is a compiler bug!() on anything but a slice value)
+                                if let (true, Some(bytes)) = (matches!(other, ConstValue::Slice { .. }), if matches!(other, ConstValue::Slice { .. }) { other.try_get_slice_bytes_for_diagnostics(tcx) } else { None }) {
                                     o.push(("str", s(String::from_utf8_lossy(bytes).to_string())));
                                 } else {
                                     o.push(("indirect", J::Bool(true)));
